@@ -4,6 +4,7 @@
 -/
 import Dsi.Session
 import Dsi.Glue.MiscDriver
+import Dsi.Glue.DispatchDriver
 open Dsi
 
 def kv (args : List String) (key : String) : Option String :=
@@ -58,6 +59,8 @@ def handle (line : String) : String :=
     | "Z" :: rest => handleZ rest
     | "VB" :: rest => handleVB rest
     | "TB" :: rest => handleTB rest
+    | "D" :: rest => handleD rest
+    | "T" :: rest => handleT rest
     | _ => "bad-request"
   | _ => "bad-request"
 
